@@ -187,3 +187,9 @@ func TestVerifC17Redirects(t *testing.T) {
 		"rapid: destination = prefix trick (45 classes: slashes, backslashes, TAB/CR/LF/C0/DEL, encodings, schemes) + host part + tail, with control-byte insertion, character soup and random strings, via form or query, through 5 redirecting handlers after a successful step; non-trivial = a redirect was emitted and the destination starts with '/' or '\\'; distinct = (prefix, host, mutation, handler, via)",
 		c17Gen, c17Check)
 }
+
+// FuzzVerifC17Redirects: coverage-guided search (go test -fuzz) over the entropy
+// stream of the generator of TestVerifC17Redirects, with the same oracle.
+func FuzzVerifC17Redirects(f *testing.F) {
+	vRunFuzz(f, "native coverage-guided fuzzing of the entropy stream of the TestVerifC17Redirects generator (rapid.MakeFuzz); same case structure, oracle, non-trivial rule and distinctness rule as TestVerifC17Redirects", c17Gen, c17Check)
+}
